@@ -50,6 +50,8 @@ const (
 	bhNilBodyOK   = "ok_empty_body"  // OK status with empty body
 	bhSeveral     = "several_frames" // two frames for a single-header request
 	bhCaseChain   = "chain_case"     // header whose chain id differs only in case
+	bhNoChain     = "no_chain"       // header with an empty chain id
+	bhChainPrefix = "chain_prefix"   // header whose chain id lacks the last character
 	bhShiftInside = "shift_inside"   // a run that starts late but still ends inside the requested window
 )
 
@@ -253,6 +255,10 @@ func (p *scriptedPeer) handle(s network.Stream) {
 		_ = s.Close()
 	case bhWrongChain:
 		mutate(vh.AdvWrongChain)
+	case bhNoChain:
+		mutate(vh.AdvNoChain)
+	case bhChainPrefix:
+		mutate(vh.AdvChainPrefix)
 	case bhBadValidate:
 		mutate(vh.AdvBadValidate)
 	case bhForged:
